@@ -15,6 +15,7 @@ import (
 	"sort"
 	"strconv"
 	"strings"
+	"sync"
 	"time"
 )
 
@@ -114,6 +115,211 @@ func failingStatus(s string) bool {
 		return true
 	}
 	return false
+}
+
+type hOut struct {
+	he          harnessEvidence
+	total       SolverStats
+	instrs      map[string]int64
+	intrinsics  map[string]int
+	samples     []map[string]interface{}
+	violLines   []string
+	knownLines  []string
+	inconcl     []string
+	nValidated  int
+	nViol       int
+	knownHit    []string
+	overApprox  int
+	pathLimited bool
+	fatal       string
+}
+
+func checkHarness(P *Program, o checkOpts, h string, known map[string]KnownFinding, knownIDs []string,
+	bin, tmp, replayDir string, sem chan struct{}) (out *hOut) {
+	out = &hOut{instrs: map[string]int64{}, intrinsics: map[string]int{}}
+	prop := o.Property
+	inconclusive := func(msg string) int { out.fatal = msg; return 3 }
+	mkCase := func(id int, h string, in []InputRec, finding string, thorough bool) replayCase {
+		return replayCase{ID: id, Harness: h, Inputs: in, Known: knownIDs, FindingID: finding, Thorough: thorough}
+	}
+	instrs, intrinsics := out.instrs, out.intrinsics
+	var (
+		total                         = &out.total
+		samples                       = &out.samples
+		nValidated, nViol, overApprox = &out.nValidated, &out.nViol, &out.overApprox
+		pathLimited                   = &out.pathLimited
+	)
+	_ = total
+	cfg := tierConfig(o.Tier, o.Workers)
+	cfg.Sem = sem
+	cfg.Known = known
+	cfg.Verbose = o.Verbose
+	he := harnessEvidence{Name: h, AssertsReached: map[string]int{}, CoversReached: map[string]int{}}
+	hr, err := Explore(P, h, cfg)
+	if err != nil {
+		inconclusive("explore " + h + ": " + err.Error())
+		return out
+	}
+	merge := func(hr *HarnessResult) {
+		he.Paths += hr.Paths
+		he.OK += hr.OK
+		he.EndedByAssume += hr.AssumeEnded
+		he.CutKnownRegion += hr.Cut
+		he.Forks += hr.Forks
+		he.Decisions += hr.Decisions
+		he.WallSecs += hr.WallSecs
+		if hr.MaxSteps > he.MaxSteps {
+			he.MaxSteps = hr.MaxSteps
+		}
+		if hr.MaxDepth > he.MaxDepth {
+			he.MaxDepth = hr.MaxDepth
+		}
+		for l, n := range hr.AssertReached {
+			he.AssertsReached[l] += n
+		}
+		for l, n := range hr.CoverReached {
+			he.CoversReached[l] += n
+		}
+		for f, n := range hr.Instrs {
+			instrs[f] += n
+		}
+		for f, n := range hr.Intrinsics {
+			intrinsics[f] += n
+		}
+		addStats(total, &hr.Stats)
+		for _, r := range hr.Inconclusive {
+			out.inconcl = append(out.inconcl, h+": "+r)
+		}
+		if hr.PathLimitHit {
+			*pathLimited = true
+			out.inconcl = append(out.inconcl, fmt.Sprintf("%s: path limit %d reached", h, cfg.MaxPaths))
+		}
+		*overApprox += hr.OverApprox
+	}
+	merge(hr)
+
+	// ---- main pass violations: confirm natively
+	var cases []replayCase
+	for k, v := range hr.Violations {
+		cases = append(cases, mkCase(k, h, v.Inputs, "", cfg.Thorough))
+	}
+	// ---- cross-validation samples
+	base := len(cases)
+	for k, s := range hr.Samples {
+		cases = append(cases, mkCase(base+k, h, s.Inputs, "", cfg.Thorough))
+	}
+	res, err := runNative(bin, tmp, cases)
+	if err != nil {
+		inconclusive("native run: " + err.Error())
+		return out
+	}
+	perLabel := map[string]int{}
+	for k, v := range hr.Violations {
+		r := res[k]
+		if failingStatus(r.Status) {
+			perLabel[v.Label]++
+			if perLabel[v.Label] <= 2 {
+				file := saveReplay(replayDir, prop, cases[k], v, r)
+				out.violLines = append(out.violLines, fmt.Sprintf("VIOLATION property=%s replay=%s", prop, file))
+				fmt.Fprintf(os.Stderr, "  %s: %s %q inputs %s natively: %s %s %s\n", h, v.Kind, v.Label, inputsString(v.Inputs), r.Status, r.Label, firstLine(r.Msg))
+			}
+			*nViol++
+			he.Violations++
+		} else {
+			out.inconcl = append(out.inconcl, fmt.Sprintf("%s: engine counterexample (%s %q: %s) did not reproduce natively (native: %s %s) inputs=%s stack=%s",
+				h, v.Kind, v.Label, v.Msg, r.Status, r.Msg, inputsString(v.Inputs), v.Stack))
+		}
+	}
+	for k, s := range hr.Samples {
+		r := res[base+k]
+		if r.Status != "ok" || !sameStrings(r.Observes, s.Observes) {
+			out.inconcl = append(out.inconcl, fmt.Sprintf("%s: engine/native disagreement on inputs %s: engine ok %v, native %s %s %v",
+				h, inputsString(s.Inputs), s.Observes, r.Status, r.Msg, r.Observes))
+		} else {
+			*nValidated++
+			he.NativeValidated++
+		}
+		if len(*samples) < 6 {
+			*samples = append(*samples, map[string]interface{}{"harness": h, "inputs": inputsMap(s.Inputs), "observed": s.Observes, "verdict": "holds; native run agrees"})
+		}
+	}
+
+	// ---- finding passes
+	for _, id := range knownIDs {
+		kf := known[id]
+		if kf.Harness != h {
+			continue
+		}
+		fcfg := tierConfig(o.Tier, o.Workers)
+		fcfg.Sem = sem
+		cfg.Sem = sem
+		fcfg.Known = known
+		fcfg.FindingID = id
+		fcfg.MaxViolations = 3
+		fcfg.SampleModels = 0
+		fhr, err := Explore(P, h, fcfg)
+		if err != nil {
+			inconclusive("explore " + h + ": " + err.Error())
+			return out
+		}
+		fhr.PathLimitHit = false // stopping early after the finding is found is expected
+		merge(fhr)
+		var fc []replayCase
+		for k, v := range fhr.Violations {
+			fc = append(fc, mkCase(k, h, v.Inputs, id, fcfg.Thorough))
+		}
+		fres, err := runNative(bin, tmp, fc)
+		if err != nil {
+			inconclusive("native run: " + err.Error())
+			return out
+		}
+		confirmed := false
+		for k, v := range fhr.Violations {
+			r := fres[k]
+			matches := v.Label == kf.Label || (kf.Label == "panic" && v.Kind == "panic") || (kf.Label == "hang" && v.Kind == "hang")
+			if !failingStatus(r.Status) {
+				out.inconcl = append(out.inconcl, fmt.Sprintf("%s: counterexample in known region %s did not reproduce natively (%s %s) inputs=%s", h, id, r.Status, r.Msg, inputsString(v.Inputs)))
+				continue
+			}
+			if matches {
+				if !confirmed {
+					confirmed = true
+					out.knownLines = append(out.knownLines, fmt.Sprintf("KNOWN-FINDING: property=%s %s [%s] e.g. inputs %s", prop, kf.Description, id, inputsString(v.Inputs)))
+					out.knownHit = append(out.knownHit, id)
+					if len(*samples) < 10 {
+						*samples = append(*samples, map[string]interface{}{"harness": h, "inputs": inputsMap(v.Inputs), "verdict": "KNOWN-FINDING " + id, "native": r.Status + " " + r.Label})
+					}
+				}
+			} else {
+				file := saveReplay(replayDir, prop, fc[k], v, r)
+				out.violLines = append(out.violLines, fmt.Sprintf("VIOLATION property=%s replay=%s", prop, file))
+				*nViol++
+				he.Violations++
+			}
+		}
+		he.FindingPasses = append(he.FindingPasses, fmt.Sprintf("%s: confirmed=%v paths=%d", id, confirmed, fhr.Paths))
+	}
+
+	// ---- vacuity
+	asserts, covers := P.AssertLabels(h)
+	for _, l := range asserts {
+		if he.AssertsReached[l] == 0 {
+			he.Unreached = append(he.Unreached, "assert:"+l)
+		}
+	}
+	for _, l := range covers {
+		if he.CoversReached[l] == 0 {
+			he.Unreached = append(he.Unreached, "cover:"+l)
+		}
+	}
+	if len(he.Unreached) > 0 && he.Violations == 0 {
+		out.inconcl = append(out.inconcl, fmt.Sprintf("%s: vacuous: never reached %v", h, he.Unreached))
+	}
+	fmt.Fprintf(os.Stderr, "%s: paths=%d ok=%d assume=%d cut=%d viol=%d validated=%d wall=%.1fs\n",
+		h, he.Paths, he.OK, he.EndedByAssume, he.CutKnownRegion, he.Violations, he.NativeValidated, he.WallSecs)
+
+	out.he = he
+	return out
 }
 
 type harnessEvidence struct {
@@ -234,170 +440,43 @@ func runCheck(o checkOpts) int {
 		knownIDs = append(knownIDs, id)
 	}
 	sort.Strings(knownIDs)
-
-	mkCase := func(id int, h string, in []InputRec, finding string, thorough bool) replayCase {
-		return replayCase{ID: id, Harness: h, Inputs: in, Known: knownIDs, FindingID: finding, Thorough: thorough}
+	sem := make(chan struct{}, o.Workers)
+	outs := make([]*hOut, len(names))
+	var wg sync.WaitGroup
+	for k, h := range names {
+		wg.Add(1)
+		go func(k int, h string) {
+			defer wg.Done()
+			outs[k] = checkHarness(P, o, h, known, knownIDs, bin, tmp, replayDir, sem)
+		}(k, h)
 	}
-
-	for _, h := range names {
-		cfg := tierConfig(o.Tier, o.Workers)
-		cfg.Known = known
-		cfg.Verbose = o.Verbose
-		he := harnessEvidence{Name: h, AssertsReached: map[string]int{}, CoversReached: map[string]int{}}
-		hr, err := Explore(P, h, cfg)
-		if err != nil {
-			return inconclusive("explore " + h + ": " + err.Error())
+	wg.Wait()
+	for _, ho := range outs {
+		if ho.fatal != "" {
+			return inconclusive(ho.fatal)
 		}
-		merge := func(hr *HarnessResult) {
-			he.Paths += hr.Paths
-			he.OK += hr.OK
-			he.EndedByAssume += hr.AssumeEnded
-			he.CutKnownRegion += hr.Cut
-			he.Forks += hr.Forks
-			he.Decisions += hr.Decisions
-			he.WallSecs += hr.WallSecs
-			if hr.MaxSteps > he.MaxSteps {
-				he.MaxSteps = hr.MaxSteps
-			}
-			if hr.MaxDepth > he.MaxDepth {
-				he.MaxDepth = hr.MaxDepth
-			}
-			for l, n := range hr.AssertReached {
-				he.AssertsReached[l] += n
-			}
-			for l, n := range hr.CoverReached {
-				he.CoversReached[l] += n
-			}
-			for f, n := range hr.Instrs {
-				instrs[f] += n
-			}
-			for f, n := range hr.Intrinsics {
-				intrinsics[f] += n
-			}
-			addStats(&total, &hr.Stats)
-			for _, r := range hr.Inconclusive {
-				inconcl = append(inconcl, h+": "+r)
-			}
-			if hr.PathLimitHit {
-				pathLimited = true
-				inconcl = append(inconcl, fmt.Sprintf("%s: path limit %d reached", h, cfg.MaxPaths))
-			}
-			overApprox += hr.OverApprox
+		evid = append(evid, ho.he)
+		addStats(&total, &ho.total)
+		for f, n := range ho.instrs {
+			instrs[f] += n
 		}
-		merge(hr)
-
-		// ---- main pass violations: confirm natively
-		var cases []replayCase
-		for k, v := range hr.Violations {
-			cases = append(cases, mkCase(k, h, v.Inputs, "", cfg.Thorough))
+		for f, n := range ho.intrinsics {
+			intrinsics[f] += n
 		}
-		// ---- cross-validation samples
-		base := len(cases)
-		for k, s := range hr.Samples {
-			cases = append(cases, mkCase(base+k, h, s.Inputs, "", cfg.Thorough))
-		}
-		res, err := runNative(bin, tmp, cases)
-		if err != nil {
-			return inconclusive("native run: " + err.Error())
-		}
-		for k, v := range hr.Violations {
-			r := res[k]
-			if failingStatus(r.Status) {
-				file := saveReplay(replayDir, prop, cases[k], v, r)
-				violLines = append(violLines, fmt.Sprintf("VIOLATION property=%s replay=%s", prop, file))
-				fmt.Fprintf(os.Stderr, "  %s: %s %q natively: %s %s %s\n", h, v.Kind, v.Label, r.Status, r.Label, firstLine(r.Msg))
-				nViol++
-				he.Violations++
-			} else {
-				inconcl = append(inconcl, fmt.Sprintf("%s: engine counterexample (%s %q: %s) did not reproduce natively (native: %s %s) inputs=%s stack=%s",
-					h, v.Kind, v.Label, v.Msg, r.Status, r.Msg, inputsString(v.Inputs), v.Stack))
+		for _, sm := range ho.samples {
+			if len(samples) < 12 {
+				samples = append(samples, sm)
 			}
 		}
-		for k, s := range hr.Samples {
-			r := res[base+k]
-			if r.Status != "ok" || !sameStrings(r.Observes, s.Observes) {
-				inconcl = append(inconcl, fmt.Sprintf("%s: engine/native disagreement on inputs %s: engine ok %v, native %s %s %v",
-					h, inputsString(s.Inputs), s.Observes, r.Status, r.Msg, r.Observes))
-			} else {
-				nValidated++
-				he.NativeValidated++
-			}
-			if len(samples) < 6 {
-				samples = append(samples, map[string]interface{}{"harness": h, "inputs": inputsMap(s.Inputs), "observed": s.Observes, "verdict": "holds; native run agrees"})
-			}
-		}
-
-		// ---- finding passes
-		for _, id := range knownIDs {
-			kf := known[id]
-			if kf.Harness != h {
-				continue
-			}
-			fcfg := tierConfig(o.Tier, o.Workers)
-			fcfg.Known = known
-			fcfg.FindingID = id
-			fcfg.MaxViolations = 3
-			fcfg.SampleModels = 0
-			fhr, err := Explore(P, h, fcfg)
-			if err != nil {
-				return inconclusive("explore " + h + ": " + err.Error())
-			}
-			fhr.PathLimitHit = false // stopping early after the finding is found is expected
-			merge(fhr)
-			var fc []replayCase
-			for k, v := range fhr.Violations {
-				fc = append(fc, mkCase(k, h, v.Inputs, id, fcfg.Thorough))
-			}
-			fres, err := runNative(bin, tmp, fc)
-			if err != nil {
-				return inconclusive("native run: " + err.Error())
-			}
-			confirmed := false
-			for k, v := range fhr.Violations {
-				r := fres[k]
-				matches := v.Label == kf.Label || (kf.Label == "panic" && v.Kind == "panic") || (kf.Label == "hang" && v.Kind == "hang")
-				if !failingStatus(r.Status) {
-					inconcl = append(inconcl, fmt.Sprintf("%s: counterexample in known region %s did not reproduce natively (%s %s) inputs=%s", h, id, r.Status, r.Msg, inputsString(v.Inputs)))
-					continue
-				}
-				if matches {
-					if !confirmed {
-						confirmed = true
-						knownLines = append(knownLines, fmt.Sprintf("KNOWN-FINDING: property=%s %s [%s] e.g. inputs %s", prop, kf.Description, id, inputsString(v.Inputs)))
-						knownHit = append(knownHit, id)
-						if len(samples) < 10 {
-							samples = append(samples, map[string]interface{}{"harness": h, "inputs": inputsMap(v.Inputs), "verdict": "KNOWN-FINDING " + id, "native": r.Status + " " + r.Label})
-						}
-					}
-				} else {
-					file := saveReplay(replayDir, prop, fc[k], v, r)
-					violLines = append(violLines, fmt.Sprintf("VIOLATION property=%s replay=%s", prop, file))
-					nViol++
-					he.Violations++
-				}
-			}
-			he.FindingPasses = append(he.FindingPasses, fmt.Sprintf("%s: confirmed=%v paths=%d", id, confirmed, fhr.Paths))
-		}
-
-		// ---- vacuity
-		asserts, covers := P.AssertLabels(h)
-		for _, l := range asserts {
-			if he.AssertsReached[l] == 0 {
-				he.Unreached = append(he.Unreached, "assert:"+l)
-			}
-		}
-		for _, l := range covers {
-			if he.CoversReached[l] == 0 {
-				he.Unreached = append(he.Unreached, "cover:"+l)
-			}
-		}
-		if len(he.Unreached) > 0 && he.Violations == 0 {
-			inconcl = append(inconcl, fmt.Sprintf("%s: vacuous: never reached %v", h, he.Unreached))
-		}
-		nPaths += he.Paths
-		evid = append(evid, he)
-		fmt.Fprintf(os.Stderr, "%s: paths=%d ok=%d assume=%d cut=%d viol=%d validated=%d wall=%.1fs\n",
-			h, he.Paths, he.OK, he.EndedByAssume, he.CutKnownRegion, he.Violations, he.NativeValidated, he.WallSecs)
+		violLines = append(violLines, ho.violLines...)
+		knownLines = append(knownLines, ho.knownLines...)
+		inconcl = append(inconcl, ho.inconcl...)
+		nValidated += ho.nValidated
+		nPaths += ho.he.Paths
+		nViol += ho.nViol
+		knownHit = append(knownHit, ho.knownHit...)
+		overApprox += ho.overApprox
+		pathLimited = pathLimited || ho.pathLimited
 	}
 
 	// ---- evidence
@@ -439,7 +518,7 @@ func runCheck(o checkOpts) int {
 			"functions_encoded":             fns,
 			"queries": map[string]interface{}{"total": total.Queries, "sat": total.Sat, "unsat": total.Unsat, "unknown": total.Unknown,
 				"errors": total.Errors, "assertions_sent": total.Asserted},
-			"solver":                    map[string]interface{}{"name": "z3 4.8.12 (one process per worker, incremental)", "seconds": round3(total.Seconds)},
+			"solver":                     map[string]interface{}{"name": "z3 4.8.12 (one process per worker, incremental)", "seconds": round3(total.Seconds)},
 			"environment_models_touched": intr,
 			"over_approximated_calls":    overApprox,
 			"known_findings_hit":         knownHit,
